@@ -316,7 +316,9 @@ def run_scenario(line):
                 def all_done():
                     # accepted = SUCCESS or NO_CONN (stored, sent once the connection is up)
                     # (a QoS 0 message queued on a connection that dies is lost: not waited for when the broker drops)
-                    return all(done_pub) and all((r[2]._published if r[0] in (0, 4) and (r[3] > 0 or (r[0] == 0 and not drop)) else True)
+                    # (... nor when it closes a connection whose first packet was not CONNECT - known finding F13t -: a QoS 0
+                    # packet appended while reconnect() empties the queue can be dropped without being marked as lost)
+                    return all(done_pub) and all((r[2]._published if r[0] in (0, 4) and (r[3] > 0 or (r[0] == 0 and not drop and not br.closed_any)) else True)
                                                  for r in results.values())
                 sch.block_until(all_done, "all publishes completed")
             c.disconnect()
